@@ -132,6 +132,11 @@ def gen_config(rng, profile="any", tier="quick"):
         n_market = max(2, n_market - rng.randrange(1, 4))           # data end before the backtest does
     market = mk.gen_market(rng, n_assets, md0, n_market, adjust=True, faults=faults,
                            low_priced_p=0.3 if profile == "C08" else 0.15)
+    if rng.random() < 0.12 and profile != "C07":
+        # a second listing of the first symbol in the same directory, with other prices; it is nobody's data
+        base = market["assets"][syms[0]]["rows"]
+        market["extra_files"] = {syms[0] + ".L": [[r[0]] + [(None if x is None else mk.r4(x * 7.0 + 3.0)) for x in r[1:6]] + [r[6]]
+                                                  for r in base]}
     # the first row of an asset is never removed by gap_days; with late_start it starts later
     if dynamic:
         # an asset must have data from its entry on (C19 domain); otherwise keep as generated for C07
